@@ -30,15 +30,22 @@ def simpson(n_pow):
     return x, w
 
 
-def elementwise_stats(op, mult, n_pow):
+def elementwise_stats(op, mult, n_pow, frozen=None):
     x, w = simpson(n_pow)
     xi = x.clone().requires_grad_()
     if op == "silu_glu":
-        lin = torch.ones_like(xi, requires_grad=True)
+        # `frozen`: one of the two operands does not require a gradient (the other one's gradient scale must not depend on that)
+        lin = torch.ones_like(xi, requires_grad=frozen != "input")
+        if frozen == "gate":
+            xi = x.clone()
         y = U.silu_glu(lin, xi, mult=mult)  # with the linear input = 1: y = s * g*sigmoid(m g)
         out_std = (w * y.detach() ** 2).sum().sqrt().item()  # linear input is independent, zero-mean, unit variance
-        g_lin, g_gate = torch.autograd.grad(y, [lin, xi], torch.ones_like(y))
-        return dict(out=out_std, grad_input=(w * g_lin**2).sum().sqrt().item(), grad_gate=(w * g_gate**2).sum().sqrt().item())
+        out = dict(out=out_std)
+        if frozen != "input":
+            out["grad_input"] = (w * torch.autograd.grad(y, lin, torch.ones_like(y), retain_graph=True)[0] ** 2).sum().sqrt().item()
+        if frozen != "gate":
+            out["grad_gate"] = (w * torch.autograd.grad(y, xi, torch.ones_like(y))[0] ** 2).sum().sqrt().item()
+        return out
     if op == "gelu":
         y = U.gelu(xi, mult=mult, constraint=None)
     elif op == "gelu_tanh":
@@ -55,15 +62,19 @@ def elementwise_stats(op, mult, n_pow):
 @st.composite
 def ew_cases(draw, tier):
     return dict(op=draw(st.sampled_from(["gelu", "gelu_tanh", "silu", "silu_glu"])),
-                mult=draw(st.one_of(st.sampled_from(GRID), st.sampled_from([1 / 16, 16.0, 1.0]), logmult(1 / 16, 16))))
+                mult=draw(st.one_of(st.sampled_from(GRID), st.sampled_from([1 / 16, 16.0, 1.0]), logmult(1 / 16, 16))),
+                frozen=draw(st.sampled_from([None, None, "input", "gate"])))
 
 
 def run_ew(c) -> CaseResult:
     res = CaseResult()
     op, m = c["op"], c["mult"]
     try:
-        a = elementwise_stats(op, m, 17)
-        b = elementwise_stats(op, m, 15)
+        fz = c.get("frozen") if op == "silu_glu" else None
+        a = elementwise_stats(op, m, 17, fz)
+        b = elementwise_stats(op, m, 15, fz)
+        if fz:
+            res.labels.append(f"silu_glu:{fz}-without-grad")
     except Exception as e:  # noqa: BLE001
         res.fail(exc_bucket(f"C04.raises:{op}", e), f"{e}")
         return res
